@@ -60,9 +60,10 @@ func main() {
 			"later version between parent versions, two parent versions see different versions of one child, or an inconsistency is present; " +
 			"fingerprint = (space, op sequence)")
 		r.Assume("the ground truth is the simulator verif/gen/histsim (last version written by an upload committed at or before t), independent of /repo")
-		r.Assume("pre-commit regime domain restriction (ground truth must be observable from timestamps): uploads that are not in the same second are " +
-			"2 h (> 2 x threshold) apart; same-second uploads write one element each, never follow an upload that wrote a parent version, and a parent edit " +
-			"does not join a second in which one of its children was deleted; same-upload skew <= threshold; one version per child per upload; one changeset per upload")
+		r.Assume("pre-commit regime domain restriction (ground truth must be observable from timestamps): uploads are 2 h (> 2 x threshold) apart, or, in the " +
+			"spaces that say so, 10 min apart with a same-upload skew of 1 min (timestamps still ascend with versions); same-second uploads write one element " +
+			"each and never follow an upload that wrote a parent version; a new parent version does not reference a child deleted at most 30 min before; " +
+			"same-upload skew <= threshold; one version per child per upload; one changeset per upload")
 		r.Assume("pre-commit regime only: child versions stamped inside [next parent - threshold, next parent) may or may not be listed as updates (grouping window): " +
 			"the oracle accepts any version-ordered prefix of them, and a deleted child version inside that window may or may not raise the 'deleted between' error; " +
 			"in the commit-time regime the update lists are required to be exact for every threshold")
@@ -104,6 +105,9 @@ func main() {
 
 func (s *Space) label() string {
 	l := fmt.Sprintf("%s/depth%d/gaps%v", s.name(), s.Depth, s.Gaps)
+	if s.VersionStep > 1 || s.FirstVersion > 1 {
+		l += fmt.Sprintf("/versions%d+%dk", s.FirstVersion, s.VersionStep)
+	}
 	if s.Regime == histsim.PreCommit {
 		l += fmt.Sprintf("/skew%v", s.Delta)
 	}
@@ -112,32 +116,42 @@ func (s *Space) label() string {
 
 // spaces lists the searched spaces of a tier.
 func spaces(quick bool) []*Space {
-	commit := func(fam string, depth int, gaps ...time.Duration) *Space {
-		return &Space{Fam: family(fam), Regime: histsim.CommitTime, Gaps: gaps, Skews: []int{0}, Depth: depth, ExtraDepth: depth - 1, Touch2: true}
+	const h, m, ms = time.Hour, time.Minute, time.Millisecond
+	// commit-time regime: gaps are "well separated" (1 h) and 100 ms (same
+	// timestamp second, distinct commit instants).
+	commit := func(fam string, depth int, touch2 bool, gaps ...time.Duration) *Space {
+		return &Space{Fam: family(fam), Regime: histsim.CommitTime, Gaps: gaps, Skews: []int{0}, Depth: depth, ExtraDepth: depth - 1, Touch2: touch2}
 	}
-	pre := func(fam string, depth int, delta time.Duration, gaps ...time.Duration) *Space {
-		return &Space{Fam: family(fam), Regime: histsim.PreCommit, Gaps: gaps, Delta: delta, Skews: []int{-1, 0, 1}, Depth: depth, ExtraDepth: depth - 1}
+	// pre-commit regime: gaps are 2 h (> 2 x the largest threshold) and 0 (same
+	// second, restricted by Space.next); same-upload children are stamped
+	// skew x delta from their parent.
+	pre := func(fam string, depth int, delta time.Duration, skews []int, gaps ...time.Duration) *Space {
+		return &Space{Fam: family(fam), Regime: histsim.PreCommit, Gaps: gaps, Delta: delta, Skews: skews, Depth: depth, ExtraDepth: depth - 1}
 	}
-	const h, ms = time.Hour, time.Millisecond
+	odd := func(s *Space) *Space { s.FirstVersion, s.VersionStep = 2, 3; return s }
+	all, outer := []int{-1, 0, 1}, []int{-1, 1}
 	if quick {
 		return []*Space{
-			commit("way2", 4, h, 100*ms),
-			pre("way2", 4, time.Minute, 2*h, 0),
-			commit("rel3", 3, h, 100*ms),
-			pre("rel3", 3, time.Minute, 2*h, 0),
+			commit("way2", 4, true, h, 100*ms),
+			pre("way2", 4, m, all, 2*h, 0),
+			odd(commit("rel3", 3, true, h, 100*ms)),
+			odd(pre("rel3", 3, 30*m, all, 2*h, 0)),
+			// close uploads: 10 min is inside the default threshold and well outside the 1 min one
+			pre("way2", 3, m, all, 2*h, 10*m, 0),
 		}
 	}
 	return []*Space{
-		commit("way2", 5, h, 100*ms),
-		pre("way2", 5, time.Minute, 2*h, 0),
-		commit("way2", 6, h),
-		pre("way2", 6, 30*time.Minute, 2*h),
-		commit("way3", 4, h, 100*ms, 10*time.Minute),
-		pre("way3", 4, time.Minute, 2*h, 0),
-		commit("rel3", 4, h, 100*ms),
-		pre("rel3", 4, time.Minute, 2*h, 0),
-		commit("rel4", 3, h, 100*ms, 10*time.Minute),
-		pre("rel4", 3, 30*time.Minute, 2*h, 0),
+		commit("way2", 5, true, 100*ms),
+		commit("way2", 6, false, 100*ms),
+		pre("way2", 5, m, outer, 2*h, 0),
+		pre("way2", 4, m, all, 2*h, 10*m, 0),
+		pre("way2", 5, 30*m, outer, 2*h),
+		odd(commit("way3", 4, true, h, 100*ms)),
+		odd(pre("way3", 4, m, all, 2*h, 0)),
+		commit("rel3", 4, false, 100*ms),
+		pre("rel3", 4, m, outer, 2*h, 0),
+		odd(commit("rel4", 3, true, h, 100*ms, 10*m)),
+		odd(pre("rel4", 3, 30*m, all, 2*h, 0)),
 	}
 }
 
@@ -157,10 +171,10 @@ func (s *Space) variants() []Variant {
 		midGap = midGap || (g > time.Minute && g <= defaultThreshold)
 	}
 	if s.Regime == histsim.PreCommit || midGap {
-		vs = append(vs, none(Variant{Name: "threshold-1m", Thr: time.Minute, SetThr: true}))
+		vs = append(vs, none(Variant{Name: "threshold-1m", Thr: time.Minute, SetThr: true, Reversed: true}))
 	}
 	if s.Regime == histsim.CommitTime {
-		vs = append(vs, none(Variant{Name: "threshold-0", Thr: 0, SetThr: true}))
+		vs = append(vs, none(Variant{Name: "threshold-0", Thr: 0, SetThr: true, Reversed: true}))
 		vs = append(vs, none(Variant{Name: "threshold-0+ignore-inconsistency", Thr: 0, SetThr: true, IgnInc: true, KeepRefs: true, When: whenInconsistent}))
 	}
 	vs = append(vs, none(Variant{Name: "ignore-inconsistency", Thr: defaultThreshold, IgnInc: true, When: whenInconsistent}))
@@ -245,7 +259,7 @@ func (s *Space) hash() uint64 {
 
 // reset builds the initial world and applies a prefix; returns the status.
 func (k *worker) reset(prefix []Op) status {
-	k.w = histsim.New(histsim.Config{Regime: k.sp.Regime})
+	k.w = histsim.New(histsim.Config{Regime: k.sp.Regime, FirstVersion: k.sp.FirstVersion, VersionStep: k.sp.VersionStep})
 	u, st := k.sp.initial()
 	k.w.Apply(u)
 	k.trace = k.trace[:0]
@@ -506,9 +520,12 @@ func (k *worker) evalVariant(v Variant, times []time.Time) *truth {
 	t := k.truth
 	p := k.buildParents(t)
 
-	// one datasource per state and withheld child (the library does not modify it)
+	// one datasource per state and withheld child (the library does not modify
+	// the elements; it sorts the history slices, which are sorted already)
 	ds := k.ds[v.Withhold+1]
-	if ds == nil {
+	if v.Reversed {
+		ds = reversed(k.w.SharedDatasource(f.Parent))
+	} else if ds == nil {
 		if v.Withhold >= 0 {
 			ds = k.w.SharedDatasource(f.Parent, f.Children[v.Withhold])
 		} else {
@@ -564,6 +581,33 @@ func (k *worker) evalVariant(v Variant, times []time.Time) *truth {
 		k.violation(v, fd.key, fd.what)
 	}
 	return t
+}
+
+// reversed returns a datasource whose histories are fresh slices in
+// descending version order (the library has to sort what it is given).
+func reversed(ds *osm.HistoryDatasource) *osm.HistoryDatasource {
+	for id, h := range ds.Nodes {
+		r := make(osm.Nodes, len(h))
+		for i, e := range h {
+			r[len(h)-1-i] = e
+		}
+		ds.Nodes[id] = r
+	}
+	for id, h := range ds.Ways {
+		r := make(osm.Ways, len(h))
+		for i, e := range h {
+			r[len(h)-1-i] = e
+		}
+		ds.Ways[id] = r
+	}
+	for id, h := range ds.Relations {
+		r := make(osm.Relations, len(h))
+		for i, e := range h {
+			r[len(h)-1-i] = e
+		}
+		ds.Relations[id] = r
+	}
+	return ds
 }
 
 func errClass(err error) string {
